@@ -455,8 +455,8 @@ def classify(module, typename, syntax, status, stderr="", facts=()):
         return "C01-set-no-per-oer"
     if status == "CRASH" and syntax == "cper" and re.search(r"#0 0x[0-9a-f]+ in SET_OF_encode_uper", stderr) \
             and ("null pointer" in stderr or "SEGV" in stderr) and has_node(module, typename, lambda n: n["k"] == "SET OF") \
-            and ("semi_lb" in facts or "set_nested" in facts or uses_alias_of(module, typename, "CHOICE")
-                 or uses_alias_of(module, typename, "ENUMERATED")):
+            and ("semi_lb" in facts or "set_nested" in facts or ("choice_nopc" in facts and uses_alias_of(module, typename, "CHOICE"))
+                 or ("enum_nopc" in facts and uses_alias_of(module, typename, "ENUMERATED"))):
         # an element of a SET OF cannot be UPER-encoded (for one of the known reasons): SET_OF__encode_sorted returns
         # NULL and SET_OF_encode_uper reads through it
         return "C01-setof-uper-unchecked-sorted"
@@ -469,9 +469,10 @@ def classify(module, typename, syntax, status, stderr="", facts=()):
         return "C01-boolean-default-true"
     if syntax == "cper" and status == "ENCFAIL:EBADF" and "semi_lb" in facts:
         return "C01-uper-semiconstrained-lb"
-    if syntax == "cper" and status == "ENCFAIL:EBADF" and uses_alias_of(module, typename, "CHOICE"):
+    # T2 ::= T1 with T1 a CHOICE / ENUMERATED: the VALUE holds a CHOICE / ENUMERATED whose descriptor has no PER constraints
+    if syntax == "cper" and status == "ENCFAIL:EBADF" and "choice_nopc" in facts and uses_alias_of(module, typename, "CHOICE"):
         return "C01-choice-ref-no-per"
-    if syntax == "cper" and status == "ENCFAIL:EBADF" and uses_alias_of(module, typename, "ENUMERATED"):
+    if syntax == "cper" and status == "ENCFAIL:EBADF" and "enum_nopc" in facts and uses_alias_of(module, typename, "ENUMERATED"):
         return "C01-enum-ref-no-per"
     if syntax == "cper" and status == "ENCFAIL:EBADF" and "ustr_nopc" in facts and \
             has_node(module, typename, lambda n: n["k"] == "REF" and resolve(module, n).get("stype") in ("BMPString", "UniversalString")) :
